@@ -674,7 +674,7 @@ def tok(a):
 
 
 def cterm(a):
-    return clist([cN(x) for x in tok(a)])
+    return "[" + "; ".join(str(x) for x in tok(a)) + "]%N"
 
 
 def cterms(args):
